@@ -94,7 +94,7 @@ theorem Bnd.exists_between [DenseUnbounded α] [Inhabited α] (cur h1 h2 n hi' :
 
 /-! ### independence of variables that come before the root -/
 
-theorem Rank.lt_trans (a b c : Rank νr νb) (h1 : a.lt b = true) (h2 : b.lt c = true) :
+theorem Rank.lt_trans_c (a b c : Rank νr νb) (h1 : a.lt b = true) (h2 : b.lt c = true) :
     a.lt c = true := by
   cases a <;> cases b <;> cases c <;> simp only [Rank.lt] at * <;> grind
 
@@ -104,7 +104,7 @@ def Env.agreeAfter (k : Rank νr νb) (ρ ρ' : Env νr νb α) : Prop :=
 
 theorem Env.agreeAfter_mono (k k' : Rank νr νb) (ρ ρ' : Env νr νb α) (h : k.lt k' = true)
     (ha : Env.agreeAfter k ρ ρ') : Env.agreeAfter k' ρ ρ' :=
-  ⟨fun w hw => ha.1 w (Rank.lt_trans _ _ _ h hw), fun w hw => ha.2 w (Rank.lt_trans _ _ _ h hw)⟩
+  ⟨fun w hw => ha.1 w (Rank.lt_trans_c _ _ _ h hw), fun w hw => ha.2 w (Rank.lt_trans_c _ _ _ h hw)⟩
 
 mutual
 /-- a well-formed diagram whose root comes after `k` only looks at variables after `k` -/
